@@ -453,7 +453,7 @@ func runC14(c *Ctx) {
 	r.Assume("events are injected only on a control connection that is up; failover is forced between bursts")
 	r.Assume("EVENT frames are framed with the cluster's negotiated version whatever the client's version; content is compared after decoding")
 	r.Require("must_deliveries_checked", "topology_events_injected", "status_events_injected", "control_failovers", "zombie_rounds", "control_failovers_after_failed_refresh")
-	n := c.Pick(160, 1600)
+	n := c.Pick(160, 15000)
 	for i := 0; i < n; i++ {
 		if c.Replay != nil && c.Replay["kind"] == "c14" {
 			if i != int(c.Replay["idx"].(float64)) {
